@@ -147,6 +147,10 @@ func vfc39Check(r *vfkit.Run, c, pattern int, rng *rand.Rand) {
 		for a := AggrCount; a <= AggrCounter; a++ {
 			got, err := view.Get(a)
 			r.Eval(1)
+			if (chks[a] == nil && err == ErrAggrNotExist) ||
+				(chks[a] != nil && err == nil && got.Encoding() == chks[a].Encoding() && bytes.Equal(got.Bytes(), orig[a]) && got.NumSamples() == chks[a].NumSamples()) {
+				continue // as stated; the branches below only classify a refuting observation
+			}
 			wit := map[string]any{"presence(count,sum,min,max,counter)": pname, "aggregate": a.String(), "via": via, "sub_chunk_bytes(-1=absent)": lens, "encoded_hex_prefix": fmt.Sprintf("%x", vfc39Head(enc.Bytes(), 48))}
 			if chks[a] == nil {
 				if err == ErrAggrNotExist {
